@@ -51,6 +51,8 @@ pub struct CaoLangAllocator {
     pub allocated: AtomicUsize,
     pub next_gc: AtomicUsize,
     pub limit: AtomicUsize,
+    #[cfg(feature = "verif-hooks")]
+    pub verif: crate::verif_hooks::VerifAllocState,
 }
 
 impl CaoLangAllocator {
@@ -60,6 +62,8 @@ impl CaoLangAllocator {
             allocated: AtomicUsize::new(0),
             next_gc: AtomicUsize::new((limit / 4).max(16)),
             limit: AtomicUsize::new(limit),
+            #[cfg(feature = "verif-hooks")]
+            verif: Default::default(),
         }
     }
 
@@ -67,9 +71,13 @@ impl CaoLangAllocator {
     /// `alloc` is not thread safe. It is on the caller to ensure that only a single thread uses
     /// the allocator at a time
     pub unsafe fn alloc(&self, l: Layout) -> Result<NonNull<u8>, AllocError> {
+        #[cfg(feature = "verif-hooks")]
+        let verif_idx = self.verif.begin_alloc(self);
         let s = l.size() + l.align();
         let allocated = s + self.allocated.fetch_add(s, Ordering::Relaxed);
         if allocated > self.limit.load(Ordering::Relaxed) {
+            #[cfg(feature = "verif-hooks")]
+            self.verif.end_alloc(self, verif_idx, l, 0, false);
             return Err(AllocError::OutOfMemory);
         }
         if allocated > self.next_gc.load(Ordering::Relaxed) {
@@ -82,7 +90,15 @@ impl CaoLangAllocator {
                 self.allocated.load(Ordering::Relaxed)
             );
         }
+        #[cfg(feature = "verif-hooks")]
+        if self.verif.should_force_gc(verif_idx) && !self.runtime.is_null() {
+            unsafe {
+                (*self.runtime).gc();
+            }
+        }
         let ptr = alloc(l);
+        #[cfg(feature = "verif-hooks")]
+        self.verif.end_alloc(self, verif_idx, l, ptr as usize, true);
         Ok(NonNull::new(ptr).unwrap())
     }
 
@@ -92,6 +108,10 @@ impl CaoLangAllocator {
     pub unsafe fn dealloc(&self, p: NonNull<u8>, l: Layout) {
         let s = l.size() + l.align();
         self.allocated.fetch_sub(s, Ordering::Relaxed);
+        #[cfg(feature = "verif-hooks")]
+        if self.verif.on_dealloc(self, p.as_ptr() as usize, l) {
+            return;
+        }
         dealloc(p.as_ptr(), l);
     }
 }
